@@ -102,6 +102,7 @@ let ev_of_code = function
   | "a1" -> EArrive (nat_of_int 1) | "a2" -> EArrive (nat_of_int 2) | "a3" -> EArrive (nat_of_int 3)
   | "l1" -> ELeave (nat_of_int 1) | "l2" -> ELeave (nat_of_int 2) | "l3" -> ELeave (nat_of_int 3)
   | "C" -> EClear | "S" -> ESnap | "s" -> EStart | "e" -> EEnd | "P" -> EPanic
+  | "ga" -> EGArrive | "gl" -> EGLeave   (* a wait of the guard while unwinding (hook H5) *)
   | s -> failwith ("event code " ^ s)
 
 let parse_log s : (nat * evk) list * string list =
@@ -144,7 +145,7 @@ let run line =
   let (log, toks_) = parse_log ilog in
   let fuel = measure cfg (init cfg) in
   let s0 = taus fuel cfg (init cfg) in
-  let (acc, st) = replay fuel cfg s0 log O in
+  let ((acc, st), pend) = replay fuel cfg s0 [] log O in
   let acc = int_of_nat acc in
   let exp = expected cfg in
   let accepted = String.concat " " (List.filteri (fun i _ -> i < acc) toks_) in
@@ -154,6 +155,7 @@ let run line =
   let spec_ok = log_sb (nat_of_int c.t) (nat_of_int c.n) log in
   let outcome =
     match st.gp with
+    | GEnd _ when acc = List.length toks_ && pend <> [] -> "leave-event-missing"
     | GEnd _ when acc = List.length toks_ && not spec_ok ->
       (* a log accepted by [step] must satisfy the trace-level specification *)
       "driver-error accepted-log-violates-log_sb"
